@@ -37,9 +37,26 @@ T = [
  ("C36","m1","collect/shutdown_backlog_demo_test.go",{"C36":"accepted_span_lost_at_shutdown"},"missed, then caught after strengthening","new fault: the collector's sender goroutine is parked (tracer seam) before the shutdown and released after Stop was called, so decided traces are still queued at Stop; the loss depends on Go's random select, so the replay file carries tries>1"),
  ("C36","m2","transmit/shutdown_retry_demo_test.go",{"C36":"accepted_span_lost_at_shutdown"},"missed, then caught after strengthening","new fault: the fake Honeycomb answers batches around the shutdown with 429/503 + Retry-After (once per batch)"),
 ]
-for id_, m, dest, caught, first, strength in T:
+T3 = [
+ # wave 3 (deliverables in /tmp/mutout3): stored under new numbers; the six that repeat an earlier change are not stored
+ ("C07","m2","collect/demo_c07_m2_test.go",{"C07":"ejected_too_little"},"caught","","C07-m3"),
+ ("C16","m1","transmit/zz_demo_c16_test.go",{"C16":"kept_stressed_span_not_delivered_exactly_once","C26":"retry_not_allowed"},"missed, then caught after strengthening","new seam: verif-hook yield at the start of DirectTransmission.sendBatch (SendGate): senders are held after a batch has been taken off the pending list while more events are enqueued for the same destination","C16-m3"),
+ ("C16","m2","route/zz_demo_c16_test.go",{"C16":"probe_forwarded_to_honeycomb"},"caught","","C16-m4"),
+ ("C18","m2","internal/peer/demo_c18m2_test.go",{"C18":"membership_not_converged"},"caught","","C18-m3"),
+ ("C23","m1","route/c23_m1_demo_test.go",{"C23":"valid_event_rejected"},"caught","","C23-m3"),
+ ("C23","m2","route/c23_m2_demo_test.go",{"C23":"error_status_but_events_processed"},"missed, then caught after strengthening","OTLP log records now also carry trace IDs (two in three), so they take the collector path and can be refused by a full queue","C23-m4"),
+ ("C26","m1","transmit/demo_c26_m1_test.go",{"C26":"event_sent_to_wrong_destination"},"missed, then caught after strengthening","look-alike destinations (parts that run into each other with or without a separator) in the generator","C26-m3"),
+ ("C26","m2","transmit/demo_c26_m2_test.go",{"C26":"event_never_sent"},"caught","","C26-m4"),
+ ("C31","m1","collect/cache/demo_m1_test.go",{"C31":"kept_decision_forgotten","C01":"trace_decided_twice"},"caught","","C31-m3"),
+ ("C31","m2","collect/cache/demo_m2_test.go",{"C31":"dropped_decision_not_answered_dropped"},"missed, then caught after strengthening","the workload never rotated the drop filter (probe filter_rotated stuck at 0): fill bursts now reach rotations, lookups come after the recent-drop TTL, and the model follows the two filter generations (a record routed into the next generation outlives one rotation)","C31-m4"),
+]
+if os.environ.get("WAVE") == "3":
+    T = T3
+for row in T:
+    id_, m, dest, caught, first, strength = row[:6]
+    stored = row[6] if len(row) > 6 else f"{id_}-{m}"
     src = f"{os.environ.get('MUTOUT','/tmp/mutout')}/{id_}/{m}"
-    dst = f"/verif/seeded/{id_}-{m}"
+    dst = f"/verif/seeded/{stored}"
     os.makedirs(dst, exist_ok=True)
     shutil.copy(f"{src}/patch.diff", f"{dst}/patch.diff")
     readme = open(f"{src}/README.md").read()
@@ -50,11 +67,11 @@ for id_, m, dest, caught, first, strength in T:
     shutil.copy(f"{src}/{demo}", f"{dst}/{demoname}")
     title = readme.strip().splitlines()[0].lstrip("# ").strip()
     title = re.sub(r"^C\d+\s*/\s*m\d\s*[—-]+\s*", "", title)
-    mneed = re.search(r"(?im)^\**\s*(condition needed|trigger)[^:]*:\**\s*(.*(?:\n(?!\n).*)*)", readme)
+    mneed = re.search(r"(?im)^[-*\s]*\**\s*(condition needed|trigger|condition)[^:\n]*:\**\s*(.*(?:\n(?!\n).*)*)", readme)
     need = " ".join(mneed.group(2).split()) if mneed else ""
     ev = f"/tmp/evalout/{id_}-{m}.txt"
     meta = {
-      "id": f"{id_}-{m}", "breaks_property": id_,
+      "id": stored, "breaks_property": id_,
       "also_visible_to": [c for c in caught if c != id_],
       "summary": title, "needs_to_manifest": need[:600],
       "demonstration": {"file": demoname, "place_at": dest, "run": f"go test {'-race ' if id_=='C35' else ''}-count=1 -run <TestDemo...> ./{os.path.dirname(dest)}/"},
